@@ -294,6 +294,49 @@ theorem outside_const {pa : Parts} {ext : List Pt} (hc : ext.head? = ext.getLast
     intro s hs' ⟨x, hx1, hx2⟩
     exact hoff x (Within.convex E.hab hm hp hx2) s hs' hx1
 
+/-- **the location relative to a closed ring is constant on an elementary sub-segment** of any edge
+of the arrangement (of either operand) -/
+theorem ring_location_const {pa : Parts} {ext : List Pt} (hc : ext.head? = ext.getLast?) (h2 : 2 ≤ ext.length)
+    {a b u v : Pt} (hs : (a, b) ∈ pa.allSegs ++ (polyOf ext).allSegs)
+    (E : Elem (vertsOf pa (polyOf ext)) a b u v) {p m : Pt} (hp : Within a b u v p)
+    (hm : Within a b u v m) : locateParts (polyOf ext) m = locateParts (polyOf ext) p := by
+  have bnd : ∀ x y, Within a b u v x → Within a b u v y → locateParts (polyOf ext) x = .onBoundary →
+      locateParts (polyOf ext) y = .onBoundary := by
+    intro x y hx hy hb
+    have hon : onAnySeg x (segs ext) = true := by
+      unfold polyOf at hb
+      rw [Geo.Proofs.Loc.locateParts_ring] at hb
+      have hs1 : (ext == [x]) = false := by
+        cases hr : ext == [x] with
+        | false => rfl
+        | true =>
+          have : ext = [x] := by simpa using hr
+          rw [this] at h2; simp at h2
+      rw [hs1] at hb
+      by_cases hon : onAnySeg x (segs ext) = true
+      · exact hon
+      · have hon' : onAnySeg x (segs ext) = false := by simpa using hon
+        rw [hon'] at hb
+        split at hb <;> simp at hb
+    rw [Geo.Proofs.Loc.onAnySeg_iff] at hon
+    obtain ⟨s, hs', hl⟩ := hon
+    have ht : (s.1, s.2) ∈ pa.allSegs ++ (polyOf ext).allSegs := by
+      rw [allSegs_polyOf]; exact List.mem_append_right _ hs'
+    have := edge_all_or_nothing hs ht E hx ((lineCoord_iff _ _ _).mp hl) hy
+    apply locate_polyOf_boundary
+    rw [Geo.Proofs.Loc.onAnySeg_iff]
+    exact ⟨s, hs', (lineCoord_iff _ _ _).mpr this⟩
+  have out : ∀ x y, Within a b u v x → Within a b u v y → locateParts (polyOf ext) x = .outside →
+      locateParts (polyOf ext) y = .outside := fun x y hx hy ho => outside_const hc h2 hs E hx hy ho
+  cases hlp : locateParts (polyOf ext) p with
+  | onBoundary => exact bnd p m hp hm hlp
+  | outside => exact out p m hp hm hlp
+  | inside =>
+    cases hlm : locateParts (polyOf ext) m with
+    | inside => rfl
+    | onBoundary => rw [bnd m p hm hp hlm] at hlp; cases hlp
+    | outside => rw [out m p hm hp hlm] at hlp; cases hlp
+
 /-! ### H1 -/
 
 theorem cell_empty_no_atom {pa pb : Parts} {X Y : Pos} (h : (relateParts pa pb).get X Y = .empty)
